@@ -5,6 +5,21 @@ import json, subprocess, os, sys
 
 CHECKS = {
  # id: (category, level text, level note, design ref, technique)
+ "C01": ("model_checking",
+         "All transactions of 1-2 postings over a 153-shape posting alphabet (values {-1,0,1,2,0.005,-0.015} x {X,Y,Z} x {none,@,@@,{},{{}},{}+@,zero rate,same-commodity rate}, omitted, bare 0, parenthesised spellings) x 4 precision contexts, all 3-posting ones over 40 shapes (quick) / the full alphabet (thorough), 4-posting ones over 12/30 shapes, and 1-2 posting ones after 3 non-empty histories, are run through report::process and compared with RefLedger: accepted iff balanced-by-the-statement, rejected with a BookKeep error located inside that transaction otherwise, never a crash; recorded amounts and balances equal the reference. Exhaustive within those bounds.",
+         "Trusted: RefLedger (harness/src/refledger.rs) as the reading of C01-C03; Q exact rational arithmetic; rust_decimal only to read results. Implied exchanges, rounding midpoints and ill-formed exchanges are DON'T-CARE for acceptance (still executed; if accepted, amounts must be right).",
+         "DESIGN.md §5 C01",
+         "bounded-exhaustive enumeration of transactions x contexts x histories vs reference ledger model (stateless explicit-state exploration)"),
+ "C02": ("model_checking",
+         "Explicit-state BFS (depth 3 quick / 5 thorough) over reference ledger states with a 24-transaction alphabet built around assertions (after assignment, after inferred posting on same/other account, twice on one account, multi-commodity, = 0), plus ALL assertion-bearing transactions of <=3 postings (<=4 thorough) over a 90-posting alphabet from 8 start states, written plainly, via aliases and with the history in an included file. Every edge re-runs the real code on the whole history: accept iff every assertion is true at its position in file order; on a false assertion the error is BalanceAssertionFailure on that posting's line with the reference's computed balance.",
+         "Trusted: RefLedger. One genuine defect (assertion after an omitted posting on the same account) is recorded in known_findings.json and reported as KNOWN-FINDING; every other signature fails the check.",
+         "DESIGN.md §5 C02",
+         "explicit-state BFS over reference states with real-code re-execution per transition + exhaustive depth-1 enumeration"),
+ "C03": ("model_checking",
+         "Same exploration as C02 restricted to transactions with an omitted and/or assigned posting: per-posting inferred amounts (as commodity maps) and ALL account balances after the transaction equal the reference; >=2 unconstrained postings and `= 0` on a multi-commodity account are rejected.",
+         "Trusted: RefLedger. Omitted posting followed by an assignment on the same account is circular under file-order semantics and DON'T-CARE.",
+         "DESIGN.md §5 C03",
+         "explicit-state BFS over reference states with real-code re-execution per transition + exhaustive depth-1 enumeration"),
  "C07": ("model_checking",
          "Every string over {0,1,7,',','.','-'} up to length 8 (quick) / 9 (thorough), a structured magnitude sweep up to 45 digits (incl. values aliasing under 64/96/128-bit wrap), and every such string of length <=4/5 embedded in 10 syntactic positions, is run through the real literal reader and printer and compared with a reference recogniser. Exhaustive within those bounds: no malformed literal is accepted, no well-formed one rejected or altered.",
          "Trusted: the reference recogniser (harness/src/checks/c07.rs::reference) as the reading of the statement; rust_decimal for reading mantissa/scale. Literals outside the alphabet {0,1,7} digits are represented by those three digits.",
